@@ -877,6 +877,11 @@ static bool expand_macro(Token **rest, Token *tok) {
   if (!equal(tok->next, "("))
     return false;
 
+  // An included file is preprocessed as a unit: a macro name that is
+  // its last token is not completed by the file that includes it.
+  if (!tok->origin && !tok->next->origin && tok->file != tok->next->file)
+    return false;
+
   // Function-like macro application
   Token *macro_token = tok;
   MacroArg *args = read_macro_args(&tok, tok, m->params, m->va_args_name);
